@@ -21,13 +21,26 @@ const char *prog = "verif";
 /* epoch  = the day's midnight as "@SECONDS" (format-less parser; the same value must come out of -i %s SECONDS)
  * ymcw-w0 = ymcw with Sunday written 00, the documented %w spelling (Sundays only)
  * ywd-w0  = ISO week date read with -i %G-W%V-%w, Sunday written 00 (Sundays only) */
-enum { C_YMD, C_YWD, C_YD, C_YMCW, C_DAISY, C_LDN, C_JDN, C_MDN, C_BIZDA, C_EPOCH, C_YMCW0, C_YWD0, NCAL };
-static const char *const cal_name[NCAL] = {"ymd", "ywd", "yd", "ymcw", "daisy", "ldn", "jdn", "mdn", "bizda", "epoch", "ymcw-w0", "ywd-w0"};
+/* bizda-B = business days counted BEFORE ultimo, the documented %dB / YYYY-MM-DDB spelling: DD = number of Monday-Friday
+ *           days of the month after the day (Monday-Friday days except the month's last one, whose count 00 is left out) */
+enum { C_YMD, C_YWD, C_YD, C_YMCW, C_DAISY, C_LDN, C_JDN, C_MDN, C_BIZDA, C_EPOCH, C_YMCW0, C_YWD0, C_BIZDAB, NCAL };
+static const char *const cal_name[NCAL] = {"ymd", "ywd", "yd", "ymcw", "daisy", "ldn", "jdn", "mdn", "bizda", "epoch", "ymcw-w0", "ywd-w0", "bizda-B"};
 /* input format handed to the parser (NULL: the format-less standard parser) */
-static const char *const cal_ifmt[NCAL] = {NULL, NULL, NULL, NULL, NULL, "ldn", "jdn", "mdn", NULL, NULL, NULL, "%G-W%V-%w"};
-static const dt_dtyp_t cal_typ[NCAL] = {DT_YMD, DT_YWD, DT_YD, DT_YMCW, DT_DAISY, DT_LDN, DT_JDN, DT_MDN, DT_BIZDA, DT_DUNK, DT_YMCW, DT_YWD};
+static const char *const cal_ifmt[NCAL] = {NULL, NULL, NULL, NULL, NULL, "ldn", "jdn", "mdn", NULL, NULL, NULL, "%G-W%V-%w", NULL};
+static const dt_dtyp_t cal_typ[NCAL] = {DT_YMD, DT_YWD, DT_YD, DT_YMCW, DT_DAISY, DT_LDN, DT_JDN, DT_MDN, DT_BIZDA, DT_DUNK, DT_YMCW, DT_YWD, DT_BIZDA};
 /* the calendar whose names the default output of a value held in C uses */
-static const int cal_base[NCAL] = {C_YMD, C_YWD, C_YD, C_YMCW, C_DAISY, C_LDN, C_JDN, C_MDN, C_BIZDA, C_EPOCH, C_YMCW, C_YWD};
+static const int cal_base[NCAL] = {C_YMD, C_YWD, C_YD, C_YMCW, C_DAISY, C_LDN, C_JDN, C_MDN, C_BIZDA, C_EPOCH, C_YMCW, C_YWD, C_BIZDA};
+
+/* Monday-Friday days of P's month after P */
+static int
+bd_until_ultimo(const struct rc_day *p)
+{
+	int n = 0;
+	for (int k = p->rd + 1; k < RC_NDAYS && rc_tab[k].m == p->m; k++) {
+		n += rc_tab[k].isbd;
+	}
+	return n;
+}
 
 /* the day's name in calendar C; 0 if it has none (weekend in bizda).
  * daisy has no text: the ymd text is parsed and converted (dseq does that) */
@@ -51,6 +64,15 @@ cal_text(int c, const struct rc_day *p, char *buf, size_t bsz)
 		snprintf(buf, bsz, "%04d-%02d-%02db", p->y, p->m, p->bd);
 		break;
 	case C_EPOCH: snprintf(buf, bsz, "@%lld", (long long)p->unixd * 86400LL); break;
+	case C_BIZDAB: {
+		int b;
+		if (!p->isbd || (b = bd_until_ultimo(p)) == 0) {
+			*buf = '\0';
+			return 0;
+		}
+		snprintf(buf, bsz, "%04d-%02d-%02dB", p->y, p->m, b);
+		break;
+	}
 	case C_YMCW0:
 		if (p->wd != 7) {
 			*buf = '\0';
@@ -230,6 +252,10 @@ dflt_agrees(int c, const struct rc_day *p, const char *got)
 		return *ep == '\0' && g == rc_jdn(p->rd);
 	}
 	case C_BIZDA:
+		/* a business day may be named by its count after the previous ultimo (b) or before this month's (B) */
+		if (p->isbd && n == 3 && !strcmp(sk, "--B") && v[0] == p->y && v[1] == p->m) {
+			return v[2] == bd_until_ultimo(p);
+		}
 		return p->isbd && n == 3 && !strcmp(sk, "--b") && v[0] == p->y && v[1] == p->m && v[2] == p->bd;
 	}
 	return 0;
